@@ -53,9 +53,18 @@ type vCase struct {
 	Fault   string `json:"fault"`
 	Group   string `json:"group"` // which enumerator produced it
 	Held    uint64 `json:"held"`  // the height the square is stored at
+	// Before: requests served earlier from the SAME accessor instance (sequence cases); the square
+	// is then additionally held at the height these requests and Raw name
+	Before []seqStep `json:"before,omitempty"`
 	Req     string `json:"req,omitempty"`
 	Expect  string `json:"expect,omitempty"`
 	Outcome string `json:"outcome,omitempty"`
+}
+
+// seqStep is one earlier request of a sequence.
+type seqStep struct {
+	Kind string `json:"kind"`
+	Raw  string `json:"raw"`
 }
 
 type spec struct {
@@ -80,6 +89,10 @@ type worker struct {
 	st     *stats
 	sink   *sink
 	hang   time.Duration
+	// sequences: a file-backed store behind a serving cache (store.CachedStore), so that the
+	// accessor opened from the ODS+Q4 files persists between requests
+	cached *store.CachedStore
+	before []seqStep // earlier requests of the running sequence (recorded in cases)
 }
 
 type stats struct {
@@ -96,6 +109,8 @@ type stats struct {
 	Recovered  int64 `json:"recovered"` // panics caught by the recovery middleware (counted, judged only if they escape)
 	OverRel    int64 `json:"over_release"`
 	Short      int64 `json:"short_strings"`
+	Sequences  int64 `json:"sequences"`
+	SeqSteps   int64 `json:"sequence_steps"`
 	Outcomes   map[string]int64 `json:"outcomes"` // kind|class|why|fault -> client class|status|reset
 	PerGroup   map[string]int64 `json:"per_group"`
 	PerKind    map[string]int64 `json:"per_kind"`
@@ -124,6 +139,8 @@ func (s *stats) merge(o *stats) {
 	s.Recovered += o.Recovered
 	s.OverRel += o.OverRel
 	s.Short += o.Short
+	s.Sequences += o.Sequences
+	s.SeqSteps += o.SeqSteps
 	for _, p := range []struct{ a, b map[string]int64 }{{s.Outcomes, o.Outcomes}, {s.PerGroup, o.PerGroup},
 		{s.PerKind, o.PerKind}, {s.PerWidth, o.PerWidth}, {s.PerStorage, o.PerStorage}, {s.PerFault, o.PerFault}, {s.GroupNs, o.GroupNs}} {
 		for k, v := range p.b {
@@ -183,6 +200,22 @@ func newWorker(t *testing.T, dir string) (*worker, error) {
 			return nil, err
 		}
 		wk.stores[sf] = s
+	}
+	{
+		p := store.DefaultParameters()
+		p.RecentBlocksCacheSize = 0
+		d := filepath.Join(dir, "cq4")
+		if err := os.MkdirAll(d, 0o755); err != nil {
+			return nil, err
+		}
+		s, err := store.NewStore(p, d)
+		if err != nil {
+			return nil, err
+		}
+		wk.stores["cq4"] = s
+		if wk.cached, err = s.WithCache("serving", 8); err != nil {
+			return nil, err
+		}
 	}
 	wk.cs = &cstore{h: wk.host}
 	srv, err := NewServer(DefaultServerParameters(), wk.host, wk.cs)
@@ -561,7 +594,8 @@ func (wk *worker) run(sp spec, w *world, lay string) (string, []finding) {
 	st.Outcomes[fmt.Sprintf("%s|%s|%s|%s -> %s", kindNames[sp.kind], exp.class, exp.why, sp.fault.Name, out)]++
 	mk := func() vCase {
 		return vCase{Layout: lay, Storage: w.storage, Kind: kindNames[sp.kind], Mode: sp.mode, Raw: hexs(sp.raw), Fault: sp.fault.Name,
-			Group: sp.group, Held: w.height, Req: exp.id.String(), Expect: exp.class + ":" + exp.why, Outcome: o.String()}
+			Group: sp.group, Held: w.height, Req: exp.id.String(), Expect: exp.class + ":" + exp.why, Outcome: o.String(),
+			Before: append([]seqStep(nil), wk.before...)}
 	}
 	wk.sink.sample(sp.group+"/"+exp.class, mk)
 	for _, f := range fs {
@@ -874,6 +908,134 @@ func faultCases(w *world, all bool) []spec {
 }
 
 // ---------------------------------------------------------------------------
+// sequences of requests served from one long-lived accessor
+
+// seqRows: first / last row of the data half and of the parity half.
+func seqRows(w *world) []int { return uniqInts([]int{0, w.S.W - 1, w.S.W, w.S.N - 1}) }
+
+// seqElems: the well-formed requests that touch EDS row r: a sample in the row (first and last
+// column), the namespace data of the namespace the row starts with, the longest
+// single-namespace range starting at the row's first share, the row itself, the whole square.
+// (Namespace data and ranges exist for rows of the data half only.)
+func seqElems(w *world, r int) []refID {
+	ids := []refID{{kind: kSample, row: r, col: 0}, {kind: kSample, row: r, col: w.S.N - 1}}
+	if r < w.S.W {
+		first := w.ods[r*w.S.W].Namespace()
+		if refNamespaceRequestable(first.Bytes()) {
+			ids = append(ids, refID{kind: kNd, ns: append([]byte(nil), first.Bytes()...)})
+		}
+		to := r*w.S.W + 1
+		for to < (r+1)*w.S.W && w.ods[to].Namespace().Equals(first) {
+			to++
+		}
+		ids = append(ids, refID{kind: kRange, from: r * w.S.W, to: to})
+	}
+	return append(ids, refID{kind: kRow, row: r}, refID{kind: kEds})
+}
+
+// seqLabel: which persisting-accessor form the sequences of a world run on ("" = none: the
+// accessor of an ODS-only world is reopened for every request).
+func seqLabel(storage string) string {
+	switch storage {
+	case "mem":
+		return "mem" // recent-blocks cache entry created by Put
+	case "q4":
+		return "cached-q4" // ODS+Q4 files opened once by the serving cache of store.CachedStore
+	}
+	return ""
+}
+
+// holdAt stores square S once more at height h in the store behind label and points the
+// server at it; the first request for h creates a NEW accessor instance that then persists.
+func (wk *worker) holdAt(label string, w *world, h uint64) error {
+	roots := (*share.AxisRoots)(w.S.DAH)
+	if label == "mem" {
+		wk.cs.inner = wk.stores["mem"]
+		return wk.stores["mem"].PutODSQ4(context.Background(), roots, h, w.S.EDS)
+	}
+	wk.cs.inner = wk.cached
+	return wk.stores["cq4"].PutODSQ4(context.Background(), roots, h, w.S.EDS)
+}
+
+func (wk *worker) dropAt(label string, w *world, hs []uint64) {
+	st := wk.stores["mem"]
+	if label != "mem" {
+		st = wk.stores["cq4"]
+	}
+	for _, h := range hs {
+		_ = st.RemoveODSQ4(context.Background(), h, w.S.DAH.Hash())
+	}
+}
+
+// runSequences executes every ordered pair (triples: every ordered triple) of seqElems of each
+// seqRows row against ONE accessor instance per sequence (a fresh height is put for every
+// sequence, nothing is re-put inside it); every exchange is judged by the ordinary oracle.
+func (wk *worker) runSequences(w *world, lay string, triples bool) error {
+	label := seqLabel(w.storage)
+	if label == "" {
+		return nil
+	}
+	next := w.height + 20
+	var used []uint64
+	defer func() {
+		wk.before = nil
+		wk.dropAt(label, w, used)
+		wk.cs.inner = wk.stores[w.storage]
+	}()
+	runSeq := func(ids []refID) error {
+		h := next
+		next++
+		if next >= w.height+990 {
+			return fmt.Errorf("sequence heights exhausted for %s", lay)
+		}
+		used = append(used, h)
+		if err := wk.holdAt(label, w, h); err != nil {
+			return err
+		}
+		sw := &world{S: w.S, height: h, storage: label, ods: w.ods}
+		wk.before = nil
+		for _, id := range ids {
+			id.height = h
+			raw := refEncode(id)
+			wk.run(spec{kind: id.kind, mode: "typed", raw: raw, fault: faultAlphabet[0], group: fmt.Sprintf("sequence-%d", len(ids))}, sw, lay)
+			wk.st.Distinct++
+			wk.st.SeqSteps++
+			wk.before = append(wk.before, seqStep{Kind: kindNames[id.kind], Raw: hexs(raw)})
+		}
+		wk.st.Sequences++
+		if len(used) >= 64 {
+			wk.dropAt(label, w, used)
+			used = used[:0]
+			next = w.height + 20
+		}
+		return nil
+	}
+	for ri, r := range seqRows(w) {
+		el := seqElems(w, r)
+		for _, a := range el {
+			for _, b := range el {
+				if err := runSeq([]refID{a, b}); err != nil {
+					return err
+				}
+			}
+		}
+		// triples on the first row of each half
+		if triples && (ri == 0 || r == w.S.W) {
+			for _, a := range el {
+				for _, b := range el {
+					for _, c := range el {
+						if err := runSeq([]refID{a, b, c}); err != nil {
+							return err
+						}
+					}
+				}
+			}
+		}
+	}
+	return nil
+}
+
+// ---------------------------------------------------------------------------
 // plan
 
 func layoutsFor(tier string) []sq.Layout {
@@ -1129,6 +1291,11 @@ func runShard(t *testing.T, tier string, seed int64, idx, n int, deadline time.T
 			wk.run(sp, w, lay)
 			wk.st.Distinct++
 		}
+		triples := tier == "thorough" && (j.lay.W <= 2 || j.li%4 == 0)
+		if err := wk.runSequences(w, lay, triples); err != nil {
+			out.Infra = err.Error()
+			return out
+		}
 		wk.st.Worlds++
 		wk.st.PerWidth[fmt.Sprintf("w%d", j.lay.W)]++
 		wk.st.PerStorage[j.storage]++
@@ -1160,7 +1327,7 @@ func TestVerifC09(t *testing.T) {
 	rep.Rule = "bounded-exhaustive inputs on the real shrex Server (all five registered handlers behind the recovery middleware, real store) and real Client over an in-memory stream pair: " +
 		"for every namespace layout of the stated ODS widths stored in the stated storage forms (recent cache / ODS+Q4 files / ODS file), every well-formed request (whole square, every EDS row, every EDS coordinate, every probe namespace incl. absent ones, every [from,to) ODS range), " +
 		"every kind × heights not held, every field at and beyond its bound (grid), zero height, malformed / reserved / parity namespaces, from >= to, huge ranges, every truncation, over-long encodings, single-byte substitutions, all byte strings of length <= 2, " +
-		"and an explicit fault alphabet (memory reservation denied, write failures, store / accessor errors and panics, service-scope failure); a case is one (square, storage, protocol, request bytes, fault) executed end to end; it is distinct by that tuple (duplicates produced by two enumerators are dropped before execution) and non-trivial because the real handler ran for it"
+		"an explicit fault alphabet (memory reservation denied, write failures, store / accessor errors and panics, service-scope failure), and every ordered pair (thorough: also triple) of well-formed requests touching the same EDS row served from ONE persisting accessor instance (recent-cache entry / serving cache over the files); a case is one (square, storage, protocol, request bytes, fault) executed end to end; it is distinct by that tuple (duplicates produced by two enumerators are dropped before execution) and non-trivial because the real handler ran for it"
 	rep.Assumptions = []string{
 		"the in-memory host/stream/scope transport bytes and record calls faithfully; the handler receives its stream after the opener's first write (lazy negotiation); stream deadlines are enforced only in the stalled-client scenario (synctest bubble, fake clock)",
 		"reference: rsmt2d square and DataAvailabilityHeader of verifx/sq; independent big-endian encoder/decoder of the five identifiers; namespace validity re-stated independently of go-square",
@@ -1295,6 +1462,8 @@ func TestVerifC09(t *testing.T) {
 	rep.Set("malformed_refused", total.Refused)
 	rep.Set("mixed_namespace_ranges", total.Mixed)
 	rep.Set("fault_cases", total.Faulted)
+	rep.Set("request_sequences_on_one_accessor", total.Sequences)
+	rep.Set("request_sequence_exchanges", total.SeqSteps)
 	rep.Set("overlong_requests", total.Overlong)
 	rep.Set("panics_recovered_by_middleware", total.Recovered)
 	rep.Set("over_release_observed", total.OverRel)
@@ -1445,14 +1614,47 @@ func replayC09(t *testing.T, rep *vx.Report, path string) {
 		if held == 0 {
 			held = 424242
 		}
-		w, err := newWorld(l, held, c.Storage)
+		isSeq := strings.HasPrefix(c.Group, "sequence")
+		base := c.Storage
+		if isSeq {
+			// the block is held once in the base storage form and once more at the height the
+			// sequence names
+			held = 424242
+			base = "mem"
+			if c.Storage != "mem" {
+				base = "q4"
+			}
+		}
+		w, err := newWorld(l, held, base)
 		if err != nil {
 			t.Fatal(err)
 		}
 		if err := wk.hold(w); err != nil {
 			t.Fatal(err)
 		}
-		out, fs := wk.run(spec{kind: kind, mode: c.Mode, raw: raw, fault: f, group: "replay"}, w, c.Layout)
+		rw := w
+		if isSeq {
+			// sequence case: one more copy of the block at the height the requests name, then the
+			// earlier requests on the same accessor instance
+			if len(raw) < 8 {
+				t.Fatal("sequence case with a truncated request")
+			}
+			h := refDecode(kEds, raw[:8]).height
+			if err := wk.holdAt(c.Storage, w, h); err != nil {
+				t.Fatal(err)
+			}
+			rw = &world{S: w.S, height: h, storage: c.Storage, ods: w.ods}
+			for _, st := range c.Before {
+				braw, err := hex.DecodeString(st.Raw)
+				if err != nil {
+					t.Fatal(err)
+				}
+				bo, _ := wk.run(spec{kind: kindByName(st.Kind), mode: "typed", raw: braw, fault: faultAlphabet[0], group: "replay-before"}, rw, c.Layout)
+				fmt.Printf("REPLAY-RESULT run=%d before %s %s -> %s\n", i+1, st.Kind, st.Raw, bo)
+				wk.before = append(wk.before, st)
+			}
+		}
+		out, fs := wk.run(spec{kind: kind, mode: c.Mode, raw: raw, fault: f, group: "replay"}, rw, c.Layout)
 		if len(fs) > 0 {
 			fails++
 		}
